@@ -181,7 +181,9 @@ ExecClauses(cur, e) ==
   << <<"C19.pure." \o op, e.anom = <<>> /\ e.post = m>>,
      <<p \o "." \o op \o ".total", e.out = "value">>,
      <<p \o "." \o op \o ".shape", e.out = "value" => R.bad = <<>> >>,
-     <<"C19.fresh." \o op, \A i \in same : cur.memo[i].out = e.out /\ cur.memo[i].ret = R>> >>
+     <<"C19.fresh." \o op, \A i \in same : cur.memo[i].out = e.out /\ cur.memo[i].ret = R>>,
+     \* a model returned by a reader must be usable by every operation (C02)
+     <<"C02.usable." \o op, e.args.ctx = "afterread" => e.out = "value">> >>
   \o Guarded(ok, IF op = "metrics" THEN MetricsClauses(m, e.args, R) ELSE OpValueClauses(m, op, e.args.f, R))
 
 ---------------------------------------------------------------------------
@@ -363,6 +365,17 @@ ReadCorpusClauses(cur, e) ==
        ReadCommon(e)
        \o << <<"C09.corpus.recount", e.anom = <<>> /\ WellFormedTree(e.post) => BettyStats(e.post) = e.ret.summary>> >>)
 
+\* Tree-shape operations on corpus models too large for TLC to ingest: the operations must return,
+\* and their scalar results must agree with one another (weaker than the definitions; stated as such).
+ExecBigClauses(cur, e) ==
+  LET R == e.ret
+  IN << <<"C16.big.total", R.errors = <<>> >>,
+        <<"C16.big.count_is_len_leaves", R.errors = <<>> => R.count_leaves = R.len_leaves>>,
+        <<"C16.big.depth_is_longest_chain", R.errors = <<>> => R.depth = R.max_anc_len>>,
+        <<"C16.big.leaves_bound", R.errors = <<>> => (R.len_leaves >= 1 /\ R.len_leaves <= R.nfeat)>>,
+        <<"C16.big.abf", R.errors = <<>> => (R.nbranch = 0 \/ RatioOK(R.abf100, R.nfeat - 1, R.nbranch))>>,
+        <<"C16.big.varpoints", R.errors = <<>> => R.nvarpoints <= R.nbranch>> >>
+
 ---------------------------------------------------------------------------
 (* Exports (C10, C11): e.ret.doc is the parsed abstract syntax *)
 ExportClauses(cur, e) ==
@@ -415,6 +428,7 @@ Clauses(cur, e) ==
     [] e.a = "Read"           -> ReadClauses(cur, e)
     [] e.a = "ReadRef"        -> ReadRefClauses(cur, e)
     [] e.a = "ReadCorpus"     -> ReadCorpusClauses(cur, e)
+    [] e.a = "ExecBig"        -> ExecBigClauses(cur, e)
     [] e.a = "ReadBack"       -> << <<"C12.utf8.names." \o e.args.fmt,
                                       e.out = "value" => (e.anom = <<>> /\ Names(e.post) = Names(cur.model))>> >>
     [] e.a = "ParseJson"      -> << <<"C05.parsejson.total", InFrag("json", cur.m0) => e.out = "value">> >>
@@ -428,6 +442,7 @@ Advance(cur, e) ==
                                    !.memo = Append(@, [op |-> e.args.op, f |-> e.args.f, model |-> cur.model,
                                                        out |-> e.out, ret |-> e.ret])]
     [] e.a = "Other" -> [cur EXCEPT !.other = e.args.model]
+    [] e.a = "ReadCorpus" -> IF e.out = "value" /\ e.args.full THEN [cur EXCEPT !.model = e.post] ELSE cur
     [] e.a = "ParseJson" -> [cur EXCEPT !.pj = [out |-> e.out, anom |-> e.anom, post |-> e.post]]
     [] e.a = "Write" -> [cur EXCEPT !.model = e.post,
                                     !.m0 = IF cur.gen = 0 /\ cur.wd = <<>> THEN cur.model ELSE @,
